@@ -28,6 +28,7 @@ type Program struct {
 	PPkgs  map[string]*packages.Package
 	impls  map[string][]*ssa.Function // CHA cache
 	inst   map[string]bool
+	mutGlobals map[*ssa.Global]bool
 	allFns map[*ssa.Function]bool
 }
 
@@ -324,4 +325,54 @@ func (P *Program) instantiated() map[string]bool {
 func isPointer(T types.Type) bool {
 	_, ok := T.Underlying().(*types.Pointer)
 	return ok
+}
+
+
+// mutableGlobals: package-level variables of the module that some non-initialiser function assigns
+// (directly or through a field/element address). All other globals keep their initial value forever.
+func (P *Program) mutableGlobals() map[*ssa.Global]bool {
+	if P.mutGlobals != nil {
+		return P.mutGlobals
+	}
+	P.mutGlobals = map[*ssa.Global]bool{}
+	for f := range P.allFns {
+		if len(f.Blocks) == 0 || (f.Synthetic != "" && f.Name() == "init") {
+			continue
+		}
+		for _, b := range f.Blocks {
+			for _, in := range b.Instrs {
+				var addr ssa.Value
+				switch in := in.(type) {
+				case *ssa.Store:
+					addr = in.Addr
+				case *ssa.MapUpdate:
+					continue
+				default:
+					// a global whose address escapes into a call may be written there
+					if ci, ok := in.(ssa.CallInstruction); ok {
+						for _, a := range ci.Common().Args {
+							if g, ok := a.(*ssa.Global); ok {
+								P.mutGlobals[g] = true
+							}
+						}
+					}
+					continue
+				}
+				for addr != nil {
+					switch x := addr.(type) {
+					case *ssa.Global:
+						P.mutGlobals[x] = true
+						addr = nil
+					case *ssa.FieldAddr:
+						addr = x.X
+					case *ssa.IndexAddr:
+						addr = x.X
+					default:
+						addr = nil
+					}
+				}
+			}
+		}
+	}
+	return P.mutGlobals
 }
